@@ -73,10 +73,11 @@ Theorem C04_resume_offset_chain : forall src local f ch r,
   Some (len local) :: retry_offsets src (retry src local [(f, ch)]) r.
 Proof. exact retry_offsets_step. Qed.
 
-(* when the offset cannot be sent nothing is written and the download is INCOMPLETE *)
+(* when the offset cannot be sent nothing is written (the state is left INITIALIZING: see
+   C04_terminal_refuted) *)
 Theorem C04_no_offset_no_write : forall a local stream t chunks,
   let r := download_session a local false stream t chunks in
-  d_local r = local /\ d_state r = DIncomplete /\ d_offset r = None.
+  d_local r = local /\ d_state r = DWedgedInit /\ d_offset r = None.
 Proof. exact no_offset_no_write. Qed.
 
 (* Segmentation does not matter (no excess bytes): file, state, counter, offset are the same for
@@ -104,7 +105,7 @@ Theorem C04_eventual_partial : forall fs src local ch,
   d_local (pair_download src (retry src local fs) NoFault ch) = src.
 Proof. exact eventual_partial. Qed.
 
-Theorem C04_eventual_upload : forall src local grant, prefix local src ->
+Theorem C04_eventual_upload : forall src local grant, prefix local src -> len src < 2 ^ 63 ->
   u_state (pair_upload src local NoFault grant) = UComplete /\
   local ++ u_wire (pair_upload src local NoFault grant) = src.
 Proof. exact pair_upload_complete. Qed.
@@ -122,15 +123,29 @@ Theorem C04_eventual_stuck_forever : forall n src ch,
   d_state (pair_download src (retry src src (repeat (NoFault, ch) n)) NoFault ch) = DIncomplete.
 Proof. exact empty_remainder_stuck_forever. Qed.
 
-(* An attempt leaves the transfer in a terminal state when a size was announced; without a size
-   (PeerTransferRequest.filesize omitted) it is left DOWNLOADING with no task: finding F13. *)
-Theorem C04_terminal_partial : forall fsz local ok stream t chunks,
-  d_state (download_session (Some fsz) local ok stream t chunks) <> DWedged.
+(* An attempt leaves the download in a terminal state (COMPLETE / INCOMPLETE / FAILED) when a size
+   was announced and the offset could be sent.  Otherwise not: without a size
+   (PeerTransferRequest.filesize omitted) it is left DOWNLOADING with a dead task (finding F13);
+   when sending the offset fails it is left INITIALIZING with a finished task (finding F13b). *)
+Theorem C04_terminal_partial : forall fsz local stream t chunks,
+  d_terminal (d_state (download_session (Some fsz) local true stream t chunks)).
 Proof. exact terminal_partial. Qed.
 
-Theorem C04_terminal_refuted : exists a local ok stream t chunks,
-  d_state (download_session a local ok stream t chunks) = DWedged.
+Theorem C04_terminal_refuted :
+  (exists local stream t chunks, d_state (download_session None local true stream t chunks) = DWedged) /\
+  (exists a local stream t chunks, d_state (download_session a local false stream t chunks) = DWedgedInit).
 Proof. exact terminal_refuted. Qed.
+
+(* Upload: terminal (COMPLETE / FAILED / QUEUED) when the peer closes and the offset is < 2^63; an
+   offset >= 2^63 leaves it UPLOADING with a dead task (finding F13c). *)
+Theorem C04_upload_terminal_partial : forall src fsz off grant cut,
+  match off with Some o => (o < 2 ^ 63)%N | None => True end ->
+  u_terminal (u_state (upload_session src fsz off grant cut true)).
+Proof. exact upload_terminal_partial. Qed.
+
+Theorem C04_upload_terminal_refuted : exists src fsz o grant cut pc,
+  u_state (upload_session src fsz (Some o) grant cut pc) = UWedged.
+Proof. exact upload_terminal_refuted. Qed.
 
 (* non-vacuity: concrete attempts meeting the hypotheses, with non-trivial outcomes *)
 Example C04_prefix_inv_nonvacuous :
